@@ -473,7 +473,7 @@ static void handle_include (const char *inc_name, int optional) {
     }
   *p = 0;
 
-  if (++incnum == MAX_INCLUDE_DEPTH)
+  if (incnum + 1 >= MAX_INCLUDE_DEPTH)
     {
 #ifdef NEOLITH_VERIF
       VERIF_CTRACE ("inc.refused", incnum, MAX_INCLUDE_DEPTH);
@@ -483,6 +483,7 @@ static void handle_include (const char *inc_name, int optional) {
   else if ((fd = inc_open (buf, name)) != -1) /* open header file */
     {
       is = ALLOCATE (incstate_t, TAG_COMPILER, "handle_include: 1");
+      incnum++;
       is->yyin_desc = yyin_desc;
       is->line = current_line;
       is->file = current_file;
